@@ -122,9 +122,13 @@ func (d *uripostDecoder) readBlock(reader *bufio.Reader, commonHeader http.Heade
 		return nil, err
 	}
 
-	buff := make([]byte, bodySize)
+	if bodySize < 0 {
+		return nil, uripost.ErrWrongSize
+	}
+	buff := []byte{}
 	if bodySize != 0 {
-		if n, err := io.ReadFull(reader, buff); err != nil {
+		var n int
+		if buff, n, err = readSized(reader, bodySize); err != nil {
 			err = xerrors.Errorf("failed to read ammo with err: %w, at position: %v; tried to read: %v; have read: %v", err, filePosition(d.file), bodySize, n)
 			return nil, err
 		}
